@@ -34,6 +34,7 @@ import (
 	kbfft "github.com/consensys/gnark-crypto/field/koalabear/fft"
 	kb "github.com/consensys/gnark-crypto/field/koalabear"
 	kbp2 "github.com/consensys/gnark-crypto/field/koalabear/poseidon2"
+	kbsis "github.com/consensys/gnark-crypto/field/koalabear/sis"
 )
 
 func init() { register("c18", runC18) }
@@ -393,6 +394,42 @@ func bn254Subjects(r *Rng) []*subject {
 					return []any{int(out[0].Int()), out[1].IsNil(), q.Interface()}
 				}})
 			}
+		}
+	}
+	// ring-SIS over a shared key and shared inputs; the destination is the caller's and holds other values at every call
+	// (a different filling per caller): the digest depends on the key and the input only
+	for _, ps := range [][2]int{{6, 16}, {9, 16}, {5, 8}} {
+		key, err := kbsis.NewRSis(5, ps[0], ps[1], 64)
+		if err != nil {
+			continue
+		}
+		deg := 1 << ps[0]
+		zeroBlock := deg * ps[1] / 32 // elements that fill the first key polynomial
+		mkv := func(kind int) []kb.Element {
+			v := make([]kb.Element, 40)
+			if kind == 2 {
+				v = v[:0]
+			}
+			for i := range v {
+				if kind == 1 && i < zeroBlock {
+					continue
+				}
+				v[i].SetUint64(uint64(i*i*7919 + 13))
+			}
+			return v
+		}
+		for kind := 0; kind < 3; kind++ {
+			v := mkv(kind)
+			subs = append(subs, &subject{name: fmt.Sprintf("koalabear.sis.Hash.%d.%d.in%d", ps[0], ps[1], kind), shared: []any{v}, run: func(variant int) any {
+				res := make([]kb.Element, deg)
+				for i := range res {
+					res[i].SetUint64(uint64(variant*31 + i + 1))
+				}
+				if err := key.Hash(v, res); err != nil {
+					return "error"
+				}
+				return res
+			}})
 		}
 	}
 	// more decoders over shared bytes: keys, signatures, vectors, target-group elements
